@@ -1,5 +1,6 @@
 (* Grammar driver: runs the Run model on parse-cases (harness/FORMAT-parse.md). *)
 open Model
+type string = String.t
 open Common
 open Lex_driver
 
